@@ -687,7 +687,7 @@ def correspondence(ctx: Ctx):
         yield _pipeline_case(ctx, rng, f, nc, ns, rng.choice([4, 5, 6]), rng.choice([4, 5, 7]), None, -13, 0.9, None, 0, False,
                              f"{op}/all-zero", op=op, all_zero=True)
     # (3b) the second builder pair (pre-transform, collate, post-transform), exactly
-    for i in range(ctx.budget(40, 1500)):
+    for i in range(ctx.budget(40, 800)):
         f = random_flags(rng, valid_only=True)
         f.update(rescale=0, pad=0, compress_coils=0, smap_gaussian=0, image_center_crop=1, ssl=0, keep_acs=0)
         nc = rng.choice([1, 2, 3, 4])
@@ -706,7 +706,7 @@ def correspondence(ctx: Ctx):
                              mask_fn=None if mk == "random" else mask_func_of(mk), op="prepost")
     # (3c) samples that already contain tensor entries: (A) sampling_mask + acs_mask and no mask function (with and
     #      without a crop: CropKspace crops the given masks), (B) a sensitivity map from the dataset
-    for i in range(ctx.budget(36, 1200)):
+    for i in range(ctx.budget(36, 600)):
         f = random_flags(rng, valid_only=True)
         f.update(rescale=0, pad=0, compress_coils=0, smap_gaussian=0, image_center_crop=1, body_coil=0)
         nc = rng.choice([1, 2, 3, 4])
@@ -937,7 +937,7 @@ def _oracle(ctx: Ctx, deep: bool = False):
                           "shape": list(k.shape)})
         yield from _guarded(check_config(cfg, k), {"op": "pipeline", **cfg})
     # (i-pp) the second builder pair, same checks (plus: batch of two through the post-transform)
-    for i in range(ctx.budget(18, 800) * (3 if deep else 1)):
+    for i in range(ctx.budget(18, 300) * (3 if deep else 1)):
         f = {**random_flags(rng, valid_only=True), "ssl": 0, "keep_acs": 0, "compress_coils": 0, "delete_kspace": rng.choice([0, 0, 1])}
         if i < 6:
             f["recon"] = i
@@ -958,7 +958,7 @@ def _oracle(ctx: Ctx, deep: bool = False):
         yield from _guarded(check_config(cfg, k), {"op": "pipeline", **cfg})
     # (i-opt) rarely used options of the single builder: pad / rescale (string crop or none), coil compression, seeding
     #         switched off (mask function RNG re-seeded by the harness so that two runs can be compared), stale entries
-    for i in range(ctx.budget(12, 400) * (3 if deep else 1)):
+    for i in range(ctx.budget(12, 200) * (3 if deep else 1)):
         f = random_flags(rng, valid_only=True)
         kind = ("pad", "rescale", "compress", "unseeded", "stale", "pad")[i % 6]
         nc = rng.choice([1, 2, 3, 4])
@@ -990,7 +990,7 @@ def _oracle(ctx: Ctx, deep: bool = False):
         ctx.count(("oracle-opt", kind, tuple(flag_list(f)), tuple(k.shape), seed), True, bucket="oracle/option/" + kind)
         yield from _guarded(check_config(cfg, k), {"op": "pipeline", **cfg})
     # (viii) call histories on one transform object (no state kept across calls), raw input left untouched, input forms
-    for i in range(ctx.budget(6, 120) * (3 if deep else 1)):
+    for i in range(ctx.budget(6, 60) * (3 if deep else 1)):
         f = {**random_flags(rng, valid_only=True), "delete_kspace": rng.choice([0, 1])}
         fam = "prepost" if i % 3 == 2 else "single"
         if fam == "prepost":
@@ -1016,7 +1016,7 @@ def _oracle(ctx: Ctx, deep: bool = False):
             ctx.count(("defaults", fam, cfg["seed"], tuple(cfg["shape"])), True, bucket="oracle/defaults/" + fam)
             yield from _guarded(check_defaults(cfg), {"op": "defaults", **cfg})
     # (x) samples that already contain masks (no mask function) or a sensitivity map
-    for i in range(ctx.budget(8, 200)):
+    for i in range(ctx.budget(8, 100)):
         f = {**random_flags(rng, valid_only=True), "delete_kspace": 0, "body_coil": 0, "compress_coils": 0}
         scen = "A" if i % 2 == 0 else "B"
         if scen == "A":
